@@ -45,6 +45,16 @@ CLAIMED = {
     text='Seeded search over histories of BeartypeConf constructions (valid, invalid, equal-but-differently-typed, unhashable values; BEARTYPE_IS_COLOR faults; two threads under the scheduler in 20% of runs) checked step by step against a small executable reference model of validation and memoisation. Evidence, not proof.',
     note='Trusted: the reference validate()/key model (my reading of the documented option rules), in-place state restore between runs (violations re-confirmed in a pristine fork).',
     design='5/C17'),
+ 'C09': dict(
+    technique='deterministic simulation (weakest fit): sampler seam + instrumented storage stubs counting every item read from the checked container, size sweep under fixed draws',
+    text='For container-bearing hints, conforming and violating stub containers of sizes 0..1000 (quick) / 0..100000 (thorough) are checked at all entry points under fixed draws; per container instance and per pass at most one item (mapping: one key and its value) is fetched, call counts are identical across the sweep, non-collection iterables are never iterated, repr() happens only when a rejection is described and a size-independent number of times. No schedule or fault is involved; the simulator contributes the draw and the storage stubs. Evidence, not proof.',
+    note='Trusted: the counting stubs (subclasses of the builtin containers and pure-Python ABC implementations); dictionary views cannot be instrumented and are not swept; wall time is not asserted.',
+    design='5/C09'),
+ 'C10': dict(
+    technique='deterministic simulation (weakest fit): sampler seam + stream/container stubs (one-shot and exploding streams, logging containers) as the fault surface',
+    text='The checked object is the I/O surface: one-shot iterators (plain and raising-if-advanced), generators, map/zip/enumerate/reversed objects, StringIO, defaultdicts and containers logging every method; after a check at any entry point and draw no consuming or mutating call was made, the stream still yields its first element, len(defaultdict) and contents are unchanged and the wrapped callable received the identical object. No schedule is involved; the simulator contributes the draw and the stubs. Evidence, not proof.',
+    note='Trusted: the stubs and their post-check inspection; validators (user callables) are out of scope here.',
+    design='5/C10'),
  'C14': dict(
     technique='deterministic simulation: seeded API-operation histories (same-named classes, deletion + explicit GC, cache clears, failing operations, define-later) with a fresh-state oracle per query under a fixed sampler draw',
     text='Seeded search over histories of public-API operations preceding each query; every query is answered a second time after beartype\'s state has been put back to pristine and only the operations constructing its arguments replayed (same draw); answers must be equal, and a query asked twice in a row must answer identically. Violations that depend on allocation history (id() reuse) are re-confirmed by re-executing the whole batch in an identical fresh worker. Evidence, not proof.',
@@ -67,7 +77,7 @@ NOT_APPLICABLE = {
 }
 
 PENDING = {k: 'not claimed yet: the simulation engine for this property (DESIGN.md section 5) is not built at this commit' for k in
-           ['C07','C09','C10','C11']}
+           ['C07','C11']}
 
 def main():
     checks = []
